@@ -163,3 +163,72 @@ func c08CloseRace(c *Ctx) {
 		}
 	}
 }
+
+// c08StaleConnection: a controller resets its connection and connects again from the same port while the accessory is
+// still busy with a request of the old connection (both connections have the same pair of addresses, the key of a
+// session in the context). What the old connection's goroutines then write — the answer of that request, an event — must
+// not be sealed with the NEW connection's session: that would use up its frame counters (the peer of the new connection
+// could not decrypt what follows) and put a frame under its key on the dead socket.
+func c08StaleConnection(c *Ctx) {
+	for i := 0; i < c.Pick(4, 40); i++ {
+		id := c.CaseID("stale-connection", i)
+		if c.Skip(id) {
+			continue
+		}
+		r := c.CaseRng("stale-connection", i)
+		ctx := hap.NewContextForSecuredDevice(nil)
+		addr := fakeAddr(fmt.Sprintf("10.7.0.%d:%d", 1+r.Intn(200), 40000+r.Intn(1000)))
+		mk := func() (*sinkConn, *hap.Connection, *refSession) {
+			raw := &sinkConn{remote: addr}
+			conn := hap.NewConnection(raw, ctx)
+			var shared [32]byte
+			copy(shared[:], randBytes(r, 32))
+			sec, _ := crypto.NewSecureSessionFromSharedKey(shared)
+			ctx.GetSessionForConnection(raw).SetCryptographer(sec)
+			responseWritten(ctx, raw)
+			return raw, conn, newRefControllerSession(shared[:])
+		}
+		raw1, conn1, peer1 := mk()
+		nBefore := r.Intn(3)
+		var want1 []byte
+		for k := 0; k < nBefore; k++ {
+			p := randBytes(r, 1+r.Intn(1500))
+			conn1.Write(p)
+			want1 = append(want1, p...)
+		}
+		raw2, conn2, peer2 := mk() // the same addresses: replaces the session in the context
+		viaEvent := r.Intn(2) == 0
+		stale := randBytes(r, 1+r.Intn(2500))
+		var n1 int
+		var err1 error
+		msg, pan := safely(func() {
+			if viaEvent {
+				n1, err1 = conn1.WriteEvent(stale)
+			} else {
+				n1, err1 = conn1.Write(stale)
+			}
+		})
+		var want2 []byte
+		for k := 0; k < 1+r.Intn(3); k++ {
+			p := randBytes(r, 1+r.Intn(1500))
+			conn2.Write(p)
+			want2 = append(want2, p...)
+		}
+		in := map[string]interface{}{"writes_before_the_reconnect": nBefore, "stale_write_bytes": len(stale), "stale_write_is_an_event": viaEvent}
+		if pan {
+			c.Violate("a write on a connection that was replaced by a new one with the same addresses panics", id, in, "error or sealed under its own session", msg)
+			continue
+		}
+		pt2, _, ok2 := peer2.DecryptFrames(raw2.out)
+		if !ok2 || !bytes.Equal(pt2, want2) {
+			c.Violate("the peer of a connection cannot decrypt its stream after an older connection with the same addresses was written to (the old connection used the new session's keys and frame counters)", id, in,
+				fmt.Sprintf("%d bytes in frames 0.. under the new session", len(want2)), fmt.Sprintf("authenticated=%v, %d plaintext bytes (stale write returned n=%d err=%v)", ok2, len(pt2), n1, err1))
+		}
+		// the dead socket: whatever was put on it must be under the OLD session, in order — or nothing
+		pt1, _, ok1 := peer1.DecryptFrames(raw1.out)
+		if !ok1 || !(bytes.Equal(pt1, want1) || bytes.Equal(pt1, append(append([]byte{}, want1...), stale...))) {
+			c.Violate("bytes written to a replaced connection are not sealed under that connection's own session", id, in, "frames under the old session, or nothing", fmt.Sprintf("authenticated=%v, %d plaintext bytes for %d+%d written", ok1, len(pt1), len(want1), len(stale)))
+		}
+		c.Count(id, true, "stream:stale-connection", fmt.Sprintf("stale-connection:event=%v", viaEvent))
+	}
+}
